@@ -103,8 +103,13 @@ def main():
     if not quick:
         configs += [("groups G(4): 1-3 definitions with lambda bodies that compute", 4, lambda n: groups4[n.depth]),
                     ("nested N(4): groups and calls nested in each other", 4, lambda n: nested4[n.depth])]
+    only = os.environ.get("C02_CONFIGS")
+    if only:
+        configs = [c for i, c in enumerate(configs) if str(i) in only]
     for name, depth, alpha in configs:
         run_step_config(H, name, depth, alpha)
+    if only:
+        return H.finish()
     budget = 5 if quick else 6
     run_evaluate(H, budget, fuel=400 if quick else 1500)
     run_skeletons(H, quick)
@@ -351,6 +356,11 @@ SKELETONS = [
     ("compare-chain", "m = (a : int) => (b : int) => if a < b then b else a\nm (m 9001 9002) 9003", {}),
     ("division", "d = (a : int) => (b : int) => a / b\nd 9001 9002 + d (-9003) 9004", {}),
     ("shadowing-free-let-in-lambda", "g = (n : int) => (k = n + 9001; h = (m : int) => m * k; h (k - 9002))\ng 9003", {}),
+    # groups of 2-3 definitions under binders, inside recursion and inside functions passed to
+    # higher-order functions: the evaluator shifts and substitutes across the group (S-C02-02)
+    ("local-group-in-recursion", "s : (int -> int) = n =>\n  if n == 9001\n  then 9002\n  else (\n    a = n - 9003\n    b = s a\n    n + b\n  )\ns 9004", {9004: (0, 3), 9003: (1, 1), 9001: (0, 0)}),
+    ("function-with-local-group-passed-on", "twice = (f : int -> int) => (x : int) => f (f x)\ntwice ((n : int) => (a = n + 9001; b = a * 9002; n + b)) 9003", {}),
+    ("three-definitions-under-two-binders", "k = (x : int) => (y : int) => (a = x - 9001; b = y * 9002; c = a + b; x * c - y)\nap = (g : int -> int -> int) => (u : int) => g u (g 9003 u)\nap k 9004", {}),
     ("forward-function-reference", "a : (int -> int) = (n : int) => b (n + 9001)\nb : (int -> int) = (n : int) => n * 9002\na 9003", {}),
 ]
 
